@@ -64,7 +64,7 @@ def run(tier, seed, replay=None):
     for i in range(n):
         which = rng.choice(["amen_solve", "amen_solve", "fast_matvec", "fast_matvec"]) if i >= 8 else "fast_matvec"
         if i in (8, 10): which = "fast_matvec"
-        if i in (9, 11, 19, 21, 23): which = "amen_solve"
+        if i in (9, 11, 19, 21, 23, 25, 27) or (tier != "quick" and i % 50 == 25): which = "amen_solve"
         sd = rng.randrange(1 << 30)
         if which == "amen_solve":
             A, b, N, kind = c12.gen_system(rng, torch, torchtt)
@@ -81,6 +81,22 @@ def run(tier, seed, replay=None):
                 prec = [None, "c", None][(i - 19) // 2]
             guess = solverkit.rand_tt_float(rng, N, solverkit.ranks(rng, len(N), 3), dt) if rng.random() < 0.4 else None
             gk = "random" if guess is not None else "none"
+            odd_rhs = i in (25, 27) or (tier != "quick" and i % 50 == 25)
+            if odd_rhs:
+                # engineered: a rank-one right-hand side whose factors are odd about the midpoint of their mode - nearly (1e-32, not exactly) orthogonal to the default all-ones start,
+                # so the projected right-hand side of the first core is tiny next to A x_prev; iterative local solves, no guess, no preconditioner (and 'c' for the second case)
+                N = [4, 5, 6] if i == 25 else [rng.choice([3, 4, 5, 6]) for _ in range(3)]; A = None
+                cs_ = []                      # the discrete Laplacian itself (no shift), in its explicit rank-2 form
+                for k_, n_ in enumerate(N):
+                    L_ = 2 * torch.eye(n_, dtype=dt) - torch.diag(torch.ones(n_ - 1, dtype=dt), 1) - torch.diag(torch.ones(n_ - 1, dtype=dt), -1); I_ = torch.eye(n_, dtype=dt)
+                    if k_ == 0: c_ = torch.stack([L_, I_], -1).reshape(1, n_, n_, 2)
+                    elif k_ == len(N) - 1: c_ = torch.stack([I_, L_], 0).reshape(2, n_, n_, 1)
+                    else:
+                        c_ = torch.zeros(2, n_, n_, 2, dtype=dt); c_[0, :, :, 0] = I_; c_[1, :, :, 1] = I_; c_[1, :, :, 0] = L_
+                    cs_.append(c_)
+                A = torchtt.TT(cs_)
+                kind = "laplace-unshifted-odd-rhs"
+                b = torchtt.TT([(torch.arange(n_, dtype=dt) - (n_ - 1) / 2).reshape(1, n_, 1) for n_ in N]); guess = None; gk = "none"; eps = 1e-8; prec = None
             if i in (17, 18) or rng.random() < 0.08:
                 # a guess exactly orthogonal to a one-hot right-hand side (two different unit tensors): the interfaces <guess, b> vanish while the guess does not
                 hot = lambda idx: torchtt.TT([torch.eye(n_, dtype=dt)[j_].reshape(1, n_, 1) for n_, j_ in zip(N, idx)])
@@ -98,6 +114,7 @@ def run(tier, seed, replay=None):
             lk = rng.choice([{}, {}, {"max_full": 0}, {"max_full": 0, "local_iterations": rng.choice([4, 6, 10]), "resets": rng.choice([6, 10])}])
             if i in (9, 11): lk = {"max_full": 0, "local_iterations": 6, "resets": 10}
             if i % 4 == 2 and kind != "diagdom-badly-scaled": lk = dict(lk, kick2=rng.choice([1, 2]))      # the documented second enrichment (random columns added to the residual basis)
+            if odd_rhs: lk = {"max_full": 0}
             if kind == "diagdom-badly-scaled": lk = {}                 # default local solver settings: 24 unpreconditioned GMRES steps are no contract on a local system of condition 1e6
             desc = {"routine": which, "N": N, "family": kind, "eps": eps, "preconditioner": prec, "guess": guess is not None, "guess_kind": gk, "torch_seed": sd, "local": lk}
             key = "amen_solve %s prec=%s%s%s" % (kind, prec, " gmres-restarts" if "resets" in lk else (" gmres" if lk else ""), " orthogonal-guess" if gk.startswith("orth") else "")
